@@ -175,6 +175,71 @@ pub fn turn(what: &str) {
     }
 }
 
+/// Post mode (`LS_GATE_POST=1`): the code that FOLLOWS an operation on the tracked block is attached to the thread's next
+/// step instead of the one just performed (both are interleavings of the same program; the default attaches it to the
+/// previous step). A thread that has just performed its operation hands the processor back and continues only right
+/// before its next scheduled step, or once the schedule is exhausted - so what a thread does after giving up its
+/// reference runs after the other threads' steps (e.g. after the last owner has freed the block).
+pub fn post_mode() -> bool {
+    static ON: std::sync::OnceLock<bool> = std::sync::OnceLock::new();
+    *ON.get_or_init(|| std::env::var("LS_GATE_POST").map(|v| v == "1").unwrap_or(false))
+}
+
+fn yield_after() {
+    let me = tid();
+    if me == 0 {
+        return;
+    }
+    let mut g = SCHED.lock().unwrap();
+    if g.is_none() {
+        return;
+    }
+    if let Some(s) = g.as_mut() {
+        if s.running == Some(me) {
+            s.running = None;
+            CV.notify_all();
+        }
+    }
+    loop {
+        let Some(s) = g.as_mut() else { return };
+        while !s.free_run && s.pos < s.schedule.len() && (s.done[s.schedule[s.pos].0] || s.paused[s.schedule[s.pos].0]) {
+            s.pos += 1;
+            s.desync = true;
+        }
+        if !s.free_run && s.pos >= s.schedule.len() {
+            s.free_run = true;
+        }
+        if s.running.is_none() && (s.free_run || s.schedule[s.pos].0 == me) {
+            s.running = Some(me);
+            return;
+        }
+        let (ng, to) = CV.wait_timeout(g, Duration::from_millis(300)).unwrap();
+        g = ng;
+        if to.timed_out() {
+            if let Some(s) = g.as_mut() {
+                s.desync = true;
+                s.free_run = true;
+                s.running = None;
+                CV.notify_all();
+            }
+        }
+    }
+}
+
+/// Called after an atomic operation, fence or buffer access has been performed and recorded.
+pub fn after_at(site: Site, addr: usize) {
+    if tid() == 0 || !post_mode() {
+        return;
+    }
+    let on_x = match site {
+        Site::Atomic | Site::Access => in_tracked(addr),
+        Site::Fence => LAST_RMW_ON_X.with(|c| c.get()),
+    };
+    if on_x {
+        yield_after()
+    }
+}
+
 /// Scheduling point in front of an atomic operation, fence or buffer access.
 pub fn turn_at(site: Site, addr: usize) {
     if tid() == 0 {
